@@ -180,6 +180,12 @@ func scenarios(tier string) []*hn.Scenario {
 			Node("f", "f", el.NodeTypeFilter, P).Node("m", "m", el.NodeTypeFormatter, P).
 			Node("s1", "s1", el.NodeTypeSink, D).Node("s2", "s2", el.NodeTypeSink, D).
 			Pipe("t1", "p1", "f", "m", "s1").Pipe("t1", "p2", "f", "m", "s2").RemovePipeAndNodes("t1", "p1"), cancel, 2, true)
+		// ... also when a node's Close complains: the call answers true, so the pipeline is gone
+		add(hn.NewBuilder("D remove-with-nodes close-error").Std("t1", "p1", P, D).Std("t1", "p2", R, D).CloseFails("t1.p1.n1").RemovePipeAndNodes("t1", "p1"), cancel, 2, true)
+		add(hn.NewBuilder("D remove-with-nodes shared close-error").
+			Node("f", "f", el.NodeTypeFilter, P).Node("m", "m", el.NodeTypeFormatter, P).
+			Node("s1", "s1", el.NodeTypeSink, D).Node("s2", "s2", el.NodeTypeSink, D).CloseFails("s1").
+			Pipe("t1", "p1", "f", "m", "s1").Pipe("t1", "p2", "f", "m", "s2").RemovePipeAndNodes("t1", "p1"), cancel, 2, true)
 		add(hn.NewBuilder("D remove-last-with-nodes").Std("t1", "p1", P, D).RemovePipeAndNodes("t1", "p1"), cancel, 2, true)
 		// overwrite twice, then remove the other pipeline
 		add(hn.NewBuilder("D overwrite-twice").Std("t1", "p1", P, D).Std("t1", "p2", P, D).
